@@ -367,11 +367,21 @@ namespace occa {
     }
 
     void statement_t::printWarning(const std::string &message) const {
-      source->printWarning(message);
+      // Some statements don't have a source token,
+      // for example the declaration of an unnamed variable
+      if (source) {
+        source->printWarning(message);
+      } else {
+        occa::printWarning(io::stderr, message);
+      }
     }
 
     void statement_t::printError(const std::string &message) const {
-      source->printError(message);
+      if (source) {
+        source->printError(message);
+      } else {
+        occa::printError(io::stderr, message);
+      }
     }
 
     printer& operator << (printer &pout,
